@@ -13,6 +13,12 @@ CHECKS = {
         note="trusts pandas for executing partition tasks, the own executor (dask.core semantics), and the comparator's order/index freedom derived from static flags",
         ref="§3 C01",
     ),
+    "C02": dict(
+        technique="reference-model property-based testing: operator catalogue x ALL cuts of a small table (bounded-exhaustive layouts) + Hypothesis multi-step programs, pandas as oracle",
+        text="~190 operator templates of every family are executed under every way of cutting an 8-row adversarial table (unknown/known divisions, empty partitions, independent layouts for two inputs) and compared with pandas applied to the concatenated input; plus generated multi-step programs. Explicit refusals are counted. Bounded exploration; known findings D9, D12, D44 listed.",
+        note="row order / index labels compared only where the query defines them; dtype kinds with pandas' promotion; approximate operators excluded",
+        ref="§3 C02",
+    ),
     "C03": dict(
         technique="bounded-exhaustive property-based enumeration of predicate trees over a full valuation table, crossed with filter-crossing contexts and the join legality table; pandas as reference model",
         text="Every predicate tree up to the bound is evaluated under all valuations (true/false/missing) of its atoms in every context a filter can be moved across; the rows returned after optimize() must be exactly the pandas selection (rid multisets, two-sided). Exhaustive inside the stated formula/context box only.",
